@@ -93,6 +93,15 @@ Theorem C20_bijective_known_refuted : forall e, In e enums -> forall m, In m (e_
 Proof. exact bij_known_refuted. Qed.
 Print Assumptions C20_bijective_known_refuted.
 
+(** ... and each is recorded as THIS failure: the token of an excluded row reads back as exactly the member the
+    finding names (a change that makes the other member of the pair the one that is lost is a new violation) *)
+Theorem C20_bijective_known_resolution : forall e, In e enums -> forall m, In m (e_rows e) ->
+  memN (m_id m) known_bij = true ->
+  exists j m', back_of known_back (m_id m) = Some j
+    /\ from_xml (e_rows e) (token (canon_of (e_rows e) m)) = Ok m' /\ m_id m' = j.
+Proof. exact known_back_resolution. Qed.
+Print Assumptions C20_bijective_known_resolution.
+
 (** every attribute use names an enumeration of the table, and every enumeration is used *)
 Theorem C20_uses_resolve : forall u, In u uses ->
   exists e, In e enums /\ e_id e = u_enum u /\ enum_by_id enums (u_enum u) = Some e.
